@@ -2849,7 +2849,7 @@ class TrackFragmentRunBox(FullBox):
             # more samples than the file has bytes (a lazily loaded box only
             # knows the end of its own data)
             src.seek(0, 2)
-            limit = max(src.tell(), 1 << 20)
+            limit = max(src.tell(), 1 << 16)
             src.seek(pos)
         if rv["sample_count"] > limit:
             raise ValueError(
